@@ -484,7 +484,7 @@ pub fn verify(ppubs: &Pt<Fp2>, g: &F12, id: &[u8], msg: &[u8], h: &BigUint, s: &
     }
     let t = g.pow(h);
     let pp = pr.g2.add(&p2_mul(&h1(id, 0x01)), ppubs);
-    let u = pairing(s, &pp);
+    let u = pairing_cached(s, &pp);
     let w = u.mul(&t);
     &h2(msg, &w.bytes()) == h
 }
@@ -527,6 +527,61 @@ pub fn encrypt_with_r(ppube: &Pt<Fp>, g: &F12, id: &[u8], msg: &[u8], r: &BigUin
     Some(Sm9Ciphertext { c1, c3, c2 })
 }
 
+/// e(P, Q) memoised on the encodings of P and Q: many tampering cases share the points of their base case
+pub fn pairing_cached(p_g1: &Pt<Fp>, q_g2: &Pt<Fp2>) -> F12 {
+    use std::collections::HashMap;
+    use std::sync::Mutex;
+    static CACHE: Mutex<Option<HashMap<Vec<u8>, F12>>> = Mutex::new(None);
+    let mut key = Vec::with_capacity(200);
+    match p_g1 {
+        Some((x, y)) => {
+            key.extend_from_slice(&x.bytes());
+            key.extend_from_slice(&y.bytes());
+        }
+        None => key.push(0),
+    }
+    match q_g2 {
+        Some((x, y)) => {
+            key.extend_from_slice(&x.bytes());
+            key.extend_from_slice(&y.bytes());
+        }
+        None => key.push(0),
+    }
+    if let Some(v) = CACHE.lock().unwrap().get_or_insert_with(HashMap::new).get(&key) {
+        return v.clone();
+    }
+    let w = pairing(p_g1, q_g2);
+    let mut g = CACHE.lock().unwrap();
+    let m = g.get_or_insert_with(HashMap::new);
+    if m.len() > 2048 {
+        m.clear();
+    }
+    m.insert(key, w.clone());
+    w
+}
+
+fn decrypt_pairing_cached(_c1_bytes: &[u8], c1: &Pt<Fp>, de: &Pt<Fp2>) -> Vec<u8> {
+    pairing_cached(c1, de).bytes().to_vec()
+}
+
+/// A conforming ciphertext whose C1 is a *given* point of G1: w = e(C1, de) is computed with the recipient's key.
+pub fn encrypt_to_c1(de: &Pt<Fp2>, id: &[u8], c1: &Pt<Fp>, msg: &[u8]) -> Option<Sm9Ciphertext> {
+    let pr = params();
+    if c1.is_none() || !pr.g1.on_curve(c1) {
+        return None;
+    }
+    let c1b = g1_bytes(c1)?;
+    let w = decrypt_pairing_cached(&c1b, c1, de);
+    let k = kdf(&[&c1b[..], &w[..], id].concat(), msg.len() + 32);
+    let (k1, k2) = k.split_at(msg.len());
+    if k1.iter().all(|b| *b == 0) {
+        return None;
+    }
+    let c2: Vec<u8> = msg.iter().zip(k1.iter()).map(|(a, b)| a ^ b).collect();
+    let c3 = mac(k2, &c2);
+    Some(Sm9Ciphertext { c1: c1.clone(), c3, c2 })
+}
+
 /// GM/T 0044.4 decryption of 04||x||y||C3||C2. None = the standard reports an error.
 pub fn decrypt(de: &Pt<Fp2>, id: &[u8], ct: &[u8]) -> Option<Vec<u8>> {
     let pr = params();
@@ -543,8 +598,8 @@ pub fn decrypt(de: &Pt<Fp2>, id: &[u8], ct: &[u8]) -> Option<Vec<u8>> {
     }
     let c3 = &ct[65..97];
     let c2 = &ct[97..];
-    let w = pairing(&c1, de);
-    let k = kdf(&[&ct[1..65], &w.bytes()[..], id].concat(), c2.len() + 32);
+    let w = decrypt_pairing_cached(&ct[1..65], &c1, de);
+    let k = kdf(&[&ct[1..65], &w[..], id].concat(), c2.len() + 32);
     let (k1, k2) = k.split_at(c2.len());
     if k1.iter().all(|b| *b == 0) {
         return None;
